@@ -2,13 +2,32 @@ use std::{io, process};
 
 use compio_buf::{BufResult, IntoInner, IoBuf, IoBufMut};
 use compio_driver::{
-    BufferRef, ResultTakeBuffer, ToSharedFd,
+    AsFd, AsRawFd, BufferRef, ResultTakeBuffer, ToSharedFd,
     op::{BufResultExt, Read, ReadManaged, Write},
 };
 use compio_io::{AsyncRead, AsyncReadManaged, AsyncWrite};
 use compio_runtime::{ResumeUnwind, Runtime, SpawnMeta};
 
 use crate::{ChildStderr, ChildStdin, ChildStdout};
+
+/// Sets or clears `O_NONBLOCK` on the open file description of `fd`.
+pub fn set_nonblocking(fd: &impl AsFd, nonblocking: bool) -> io::Result<()> {
+    let fd = fd.as_fd().as_raw_fd();
+    // SAFETY: `fd` is a valid descriptor borrowed from the caller.
+    let flags = unsafe { libc::fcntl(fd, libc::F_GETFL) };
+    if flags < 0 {
+        return Err(io::Error::last_os_error());
+    }
+    let new_flags = if nonblocking {
+        flags | libc::O_NONBLOCK
+    } else {
+        flags & !libc::O_NONBLOCK
+    };
+    if new_flags != flags && unsafe { libc::fcntl(fd, libc::F_SETFL, new_flags) } < 0 {
+        return Err(io::Error::last_os_error());
+    }
+    Ok(())
+}
 
 pub async fn child_wait(mut child: process::Child) -> io::Result<process::ExitStatus> {
     // Name the task: its location points here rather than into the code that
